@@ -61,15 +61,16 @@ def run(ctx, n, kinds, par=4, passes=1):
         ctx.violation("recorded send/reply history rejected by prop/Txn clause %s (%s), %d scenario(s)" % (g["clause"], sig, g["n"]),
                       dict(binding="B2 scripted peer + acceptor", signature=sig, clause=g["clause"], occurrences=g["n"],
                            scenario=json.loads(common.short(json.dumps(d), 100000)) if len(json.dumps(d)) < 100000 else None))
-    # model-level binding (C06 only, it is the same recording for the three properties): every single-generation scenario's
-    # peer-side event log is validated as a behaviour of impl/SendReply with the library's steps inferred
+    # model-level binding (C06 and C09; C20 judges the same recordings by its metric clauses only): every scenario's peer-side
+    # event log, incl. the end of generation 1 and the selection of generation 2, is validated as a behaviour of
+    # impl/SendReply with the library's steps inferred
     ntr, trej, tstates = 0, [], 0
-    if pid == "C06":
+    if pid in ("C06", "C09"):
         ntr, trej, tstates = validate_traces(ctx, os.path.join(ctx.tmp, "txntr_all.ndjson"))
         tg = {}
         for tr, hw in trej:
             nxt = tr["events"][hw] if hw < len(tr["events"]) else None
-            sig = "c06:trace:%s:%s" % (tr["kind"], ("%s-%s" % (nxt["d"], nxt["k"])) if nxt else "final")
+            sig = "%s:trace:%s:%s" % (pid.lower(), tr["kind"], ("%s-%s" % (nxt["d"], nxt["k"])) if nxt else "final")
             g = tg.setdefault(sig, dict(n=0, first=dict(trace=tr, matched_prefix=hw, next_event=nxt or "(end: outcomes / deliveries do not match any behaviour)")))
             g["n"] += 1
         for sig, g in sorted(tg.items()):
